@@ -300,9 +300,16 @@ def same_instance_call(M, ch, rng, s, st, when):
     if can_f and ch.flip(1, 2, "bystander_is_fsolve"):
         freq = np.sort(rng.uniform(0.5, 0.3 / sysd.h, 3))
         frc = rng.standard_normal((n, 3))
+        try:
+            exp = s.ref.fsolve(frc.copy(), freq.copy())
+        except Exception:
+            # the frequency-domain solver itself refuses this system (e.g. the 1e-13
+            # "factor of 2.0" consistency check in ode.addconj, seen once in 2.5 M runs):
+            # an input-domain matter of fsolve (C02), not a send-history matter
+            st.probe("bystander_refused_by_reference")
+            return
         with _Sut("fsolve on the same instance", session=s.id, when=when):
             got = s.ts.fsolve(frc.copy(), freq.copy())
-        exp = s.ref.fsolve(frc.copy(), freq.copy())
         st.fault("same_instance_fsolve")
         names = ("d", "v", "a")
         what = "fsolve"
@@ -310,9 +317,13 @@ def same_instance_call(M, ch, rng, s, st, when):
     else:
         k = 2 + ch.draw(4, "bystander_nt")
         frc = rng.standard_normal((n, k))
+        try:
+            exp = s.ref.tsolve(frc.copy())
+        except Exception:
+            st.probe("bystander_refused_by_reference")
+            return
         with _Sut("tsolve on the same instance", session=s.id, when=when):
             got = s.ts.tsolve(frc.copy())
-        exp = s.ref.tsolve(frc.copy())
         st.fault("same_instance_tsolve")
         names = ("d", "v", "a")
         what = "tsolve"
